@@ -1,5 +1,3 @@
-//go:build wip_c15
-
 package props
 
 import (
@@ -350,6 +348,9 @@ func c15R3(c *kit.Ctx, a *c15Anchors, r3 *kit.Rule) {
 		nid, emp, s2 := s.Get("a:nid"), s.Get("a:emp:txt"), s.Get("s2") == "1"
 		if !s2 && nid != "F" && emp != "T" {
 			r.ptMsgs.viol("a node-id point with non-empty text can pass the loop at %s without its text being replaced in the node's Points slice: the reference keeps the old id", f.At(r.ptsLoop))
+		}
+		if s2 && emp != "F" {
+			r.ptMsgs.viol("a node-id point whose text may be empty is given an id in the loop at %s: an empty reference comes back from the import pointing to a node", f.At(r.ptsLoop))
 		}
 		if s2 && nid != "T" {
 			r.ptMsgs.viol("the text of a point whose type is not known to be nodeID can be replaced in the loop at %s", f.At(r.ptsLoop))
